@@ -65,14 +65,26 @@ func portString(e portEntry) string {
 	return fmt.Sprintf("%s/%s:%d", e.Proto, e.IP, e.Port)
 }
 
+// portsConfig writes the table; neighbouring entries with the same service list share one block in the
+// `ports = [...]` spelling (the table they describe is the same).
 func portsConfig(ports []portEntry) string {
 	var b strings.Builder
-	for _, e := range ports {
+	for i := 0; i < len(ports); i++ {
+		e := ports[i]
 		var names []string
 		for _, s := range e.Services {
 			names = append(names, tomlStr(s))
 		}
-		fmt.Fprintf(&b, "\n[[port]]\nport=%s\nservices=[%s]\n", tomlStr(portString(e)), strings.Join(names, ","))
+		block := []string{tomlStr(portString(e))}
+		for i+1 < len(ports) && strings.Join(ports[i+1].Services, ",") == strings.Join(e.Services, ",") {
+			i++
+			block = append(block, tomlStr(portString(ports[i])))
+		}
+		if len(block) > 1 {
+			fmt.Fprintf(&b, "\n[[port]]\nports=[%s]\nservices=[%s]\n", strings.Join(block, ","), strings.Join(names, ","))
+		} else {
+			fmt.Fprintf(&b, "\n[[port]]\nport=%s\nservices=[%s]\n", block[0], strings.Join(names, ","))
+		}
 	}
 	return b.String()
 }
@@ -106,6 +118,10 @@ func genC08(seed uint64, idx int, tier string) *Scenario {
 		}
 		for j := 0; j < k; j++ {
 			e.Services = append(e.Services, p.Stubs[r.Intn(len(p.Stubs))].Name)
+		}
+		if i > 0 && r.Chance(0.35) {
+			// the same services as the entry before: the two are written as one block with a port list
+			e.Services = append([]string(nil), p.Ports[i-1].Services...)
 		}
 		p.Ports = append(p.Ports, e)
 	}
